@@ -102,7 +102,7 @@ PROPS = {
                      'slices.SortFunc is modelled as insertion sort (any sort returning a sorted permutation gives the same result on distinct keys: sorted_perm_eq)'],
     ),
     'C17': dict(
-        families=['typed'], reports=['marshal', 'unmarshal'],
+        families=['typed'], reports=['marshal', 'unmarshal', 'utaps'],
         proof_files=['Abstract/PathsAlias.v', 'Proofs/PathsP.v'],
         theorems='c17_append_spec, c17_siblings_isolated, c17_taps_are_true_paths (for every growth policy of append); Snapshots.c17_snapshot_stable, c17_view_stable_when_full, c17_runs_taps_true_paths, c17_runs_independent (+ c17_view_refuted, c17_hdrs_refuted: why errors must copy the path); MarshalTaps.c17_marshal_taps_are_paths [the executable tap model = the declarative path of every element], c17_root_tap_path, c17_taps_extend_root, c17_sibling_taps_disjoint, c17_taps_count (+ c17_marshal_taps_tied_keys_edge)',
         assumptions=['the aliasing model (Abstract/PathsAlias.v) and the tap model (Model/MarshalTaps.v) are tied to the code through the marshal tap-log correspondence (the tap model evaluated in Coq on every generated value) and, for unmarshal taps and error paths, through a Go-side reference path computation (incl. literal conversion errors, errors kept across runs that share a base context, sb.Tuple / pre-filled targets)',
